@@ -106,7 +106,7 @@ def FSYM(**kw):
     return Env("sym", **kw)
 
 
-def body_farmer(E, kind, stage, cu, base):
+def body_farmer(E, kind, stage, cu, base, ai=False):
     """stage: 0 none, 1 wrong number of var_names, 2 merge conflict with existing data, 3 saving raises,
     4 an over-long result dump (surplus results are only noticed when the Reaper is closed)"""
     from .xrkit import fingerprint, same_fp, rows_of
@@ -119,7 +119,10 @@ def body_farmer(E, kind, stage, cu, base):
     stage = concretize(stage, 0, 4)
     cu = concretize(cu, 0, 2)
     clean_up = [None, True, False][cu]
-    eff_clean = True if clean_up is None else clean_up
+    ai = cbool(ai)
+    if stage != 0:
+        ai = False
+    eff_clean = (not ai) if clean_up is None else clean_up
     if stage == 2 and kind != 1:
         stage = 0
     if stage == 3 and kind == 0:
@@ -177,7 +180,7 @@ def body_farmer(E, kind, stage, cu, base):
             env._set(fm, "save_df", failing(real_save_df))
         raised = False
         try:
-            out = crop.reap(clean_up=clean_up)
+            out = crop.reap(clean_up=clean_up, **({"allow_incomplete": True} if ai else {}))
         except Exception:  # noqa
             raised = True
         if stage == 0:
@@ -241,12 +244,13 @@ CONDS = [
 ]
 
 CONDS += split_conds(
-    _G, "farmer", body_farmer, "stage:int cu:int base:int", ["0 <= stage <= 4 and 0 <= cu <= 2"], "kind", [0, 1, 2],
+    _G, "farmer", body_farmer, "stage:int cu:int base:int ai:bool", ["0 <= stage <= 4 and 0 <= cu <= 2"], "kind", [0, 1, 2],
     timeout=600,
     bounds="farmer-attached crops (kind 0 Runner, 1 Harvester, 2 Sampler) of 2 batches; failure injected at: "
            "dataset construction (wrong number of var_names), harvester merge conflict, saving the merged data "
            "(save_ds / save_df raising once), an over-long result dump; clean_up None/True/False; then the "
-           "corrected retry")
+           "corrected retry; without a failure also allow_incomplete=True on the complete crop (default clean_up then "
+           "keeps the crop)")
 CONFORMANCE = ("fakefs", "minixr", "minipd")
 
 ASSUMPTIONS = [
